@@ -995,3 +995,264 @@ func runByteTrim(p *Prog, r *Report) {
 	r.ExpectMin("E6.text-tail-trims", n, 2)
 	r.Clauses = append(r.Clauses, "E6 the last character of recovered text is dropped by its rune width, or by one byte only after that byte was compared with an ASCII constant")
 }
+
+// runSearchFlagReset — E15.search-flag-reset: a boolean that records the outcome of an inner
+// search loop for the *current* element of an outer loop (set to true inside the inner loop,
+// read after it in the outer loop's body) must start false in every outer iteration: declared
+// inside the outer loop's body or assigned false there before the inner loop. Declared
+// outside and never reset, the first hit answers for all later elements.
+func runSearchFlagReset(p *Prog, r *Report) {
+	n := 0
+	for _, fn := range p.Funcs {
+		if fn.Body == nil {
+			continue
+		}
+		info := fn.Info()
+		ast.Inspect(fn.Body, func(m ast.Node) bool {
+			if lit, ok := m.(*ast.FuncLit); ok && lit != fn.Lit {
+				return false
+			}
+			outerBody := loopBody(m)
+			if outerBody == nil {
+				return true
+			}
+			// inner loops directly or indirectly inside the outer body
+			ast.Inspect(outerBody, func(k ast.Node) bool {
+				if _, isLit := k.(*ast.FuncLit); isLit {
+					return false
+				}
+				inner := loopBody(k)
+				if inner == nil || k == m {
+					return true
+				}
+				// flags set to true inside the inner loop
+				ast.Inspect(inner, func(z ast.Node) bool {
+					as, ok := z.(*ast.AssignStmt)
+					if !ok || len(as.Lhs) != 1 || len(as.Rhs) != 1 || as.Tok != token.ASSIGN {
+						return true
+					}
+					id, ok := ast.Unparen(as.Lhs[0]).(*ast.Ident)
+					v, isTrue := ast.Unparen(as.Rhs[0]).(*ast.Ident)
+					if !ok || !isTrue || v.Name != "true" {
+						return true
+					}
+					o := info.ObjectOf(id)
+					if o == nil {
+						return true
+					}
+					// read in the outer body after the inner loop?
+					readAfter := false
+					ast.Inspect(outerBody, func(q ast.Node) bool {
+						if rid, ok := q.(*ast.Ident); ok && info.ObjectOf(rid) == o && rid.Pos() > k.End() {
+							readAfter = true
+						}
+						return true
+					})
+					if !readAfter {
+						return true
+					}
+					n++
+					construct := "search flag " + id.Name + " of the loop at " + relLine(p, k)
+					declaredInOuter := o.Pos() >= outerBody.Pos() && o.Pos() < outerBody.End()
+					reset := false
+					ast.Inspect(outerBody, func(q ast.Node) bool {
+						if ras, ok := q.(*ast.AssignStmt); ok && ras.Pos() < k.Pos() && len(ras.Lhs) == 1 && len(ras.Rhs) == 1 {
+							if lid, ok := ast.Unparen(ras.Lhs[0]).(*ast.Ident); ok && info.ObjectOf(lid) == o {
+								if fv, ok := ast.Unparen(ras.Rhs[0]).(*ast.Ident); ok && fv.Name == "false" {
+									reset = true
+								}
+							}
+						}
+						return true
+					})
+					if declaredInOuter || reset {
+						r.Add("E15.search-flag-reset", fn.Name, construct, p.Pos(as), OK, "starts false in every iteration of the enclosing loop", true)
+					} else {
+						r.Add("E15.search-flag-reset", fn.Name, construct, p.Pos(as), Violated,
+							id.Name+" is set by the inner search and read for each element of the enclosing loop, but it is declared outside that loop and never reset: after the first hit every later element is treated as found", true)
+					}
+					return true
+				})
+				return true
+			})
+			return true
+		})
+	}
+	r.Counts["E15.search-flags"] = n
+	r.Clauses = append(r.Clauses, "E15 a flag set by an inner search loop and read per element of the enclosing loop starts false in every iteration")
+}
+
+func loopBody(n ast.Node) *ast.BlockStmt {
+	switch l := n.(type) {
+	case *ast.RangeStmt:
+		return l.Body
+	case *ast.ForStmt:
+		return l.Body
+	}
+	return nil
+}
+
+func relLine(p *Prog, n ast.Node) string {
+	s := p.Pos(n)
+	if i := strings.LastIndex(s, "/"); i >= 0 {
+		s = s[i+1:]
+	}
+	// keep the file name only (keys must not contain line numbers)
+	if i := strings.Index(s, ":"); i >= 0 {
+		s = s[:i]
+	}
+	return s
+}
+
+// runColumnOrder — E6.column-order: ordering two positions by Column alone (<, >, <=, >=) is
+// only meaningful on one line; positions are ordered by Byte.
+func runColumnOrder(p *Prog, r *Report) {
+	n := 0
+	for _, fn := range p.Funcs {
+		if fn.Body == nil {
+			continue
+		}
+		info := fn.Info()
+		ast.Inspect(fn.Body, func(m ast.Node) bool {
+			if lit, ok := m.(*ast.FuncLit); ok && lit != fn.Lit {
+				return false
+			}
+			be, ok := m.(*ast.BinaryExpr)
+			if !ok {
+				return true
+			}
+			switch be.Op {
+			case token.LSS, token.GTR, token.LEQ, token.GEQ:
+			default:
+				return true
+			}
+			comp := func(e ast.Expr) string {
+				if sel, ok := ast.Unparen(e).(*ast.SelectorExpr); ok {
+					if tv := info.TypeOf(sel.X); tv != nil && isHclPos(tv) {
+						return sel.Sel.Name
+					}
+				}
+				return ""
+			}
+			cx, cy := comp(be.X), comp(be.Y)
+			if cx == "" || cy == "" {
+				return true
+			}
+			n++
+			if cx == "Byte" && cy == "Byte" {
+				r.Add("E6.column-order", fn.Name, cmpText(be), p.Pos(be), OK, "positions ordered by byte offset", false)
+			} else {
+				r.Add("E6.column-order", fn.Name, cmpText(be), p.Pos(be), Violated, "positions are ordered by "+cx+"/"+cy+": on different lines a smaller column does not mean an earlier position", true)
+			}
+			return true
+		})
+	}
+	r.Counts["E6.position-order-comparisons"] = n
+	r.ExpectMin("E6.position-order-comparisons", n, 10)
+	r.Clauses = append(r.Clauses, "E6 two positions are ordered by their byte offsets only")
+}
+
+// runCtxLeak — E15.per-body-context: a context enriched for one body (WithActiveSelfRefs)
+// is not passed on to the recursive descent into nested bodies, whose own schema decides.
+func runCtxLeak(p *Prog, r *Report) {
+	n := 0
+	for _, fn := range p.Funcs {
+		if fn.Body == nil || fn.Lit != nil || fn.Obj == nil {
+			continue
+		}
+		info := fn.Info()
+		// variables assigned from WithActiveSelfRefs(...)
+		enriched := map[types.Object][]ast.Node{}
+		ast.Inspect(fn.Body, func(m ast.Node) bool {
+			as, ok := m.(*ast.AssignStmt)
+			if !ok || len(as.Lhs) != len(as.Rhs) {
+				return true
+			}
+			for i, rhs := range as.Rhs {
+				if c, ok := ast.Unparen(rhs).(*ast.CallExpr); ok {
+					if f := calleeOf(info, c); f != nil && f.Name() == "WithActiveSelfRefs" {
+						if id, ok := ast.Unparen(as.Lhs[i]).(*ast.Ident); ok {
+							enriched[info.ObjectOf(id)] = append(enriched[info.ObjectOf(id)], as)
+						}
+					}
+				}
+			}
+			return true
+		})
+		if len(enriched) == 0 {
+			continue
+		}
+		ast.Inspect(fn.Body, func(m ast.Node) bool {
+			c, ok := m.(*ast.CallExpr)
+			if !ok {
+				return true
+			}
+			if f := calleeOf(info, c); f == nil || f != fn.Obj {
+				return true
+			}
+			n++
+			leak := ""
+			for _, a := range c.Args {
+				if id, ok := ast.Unparen(a).(*ast.Ident); ok {
+					for _, src := range enriched[info.ObjectOf(id)] {
+						// the enriching assignment must be able to reach this call
+						if reachesStmt(fn, src, c, nil) && !positionExclusiveSites(fn, src, c) {
+							leak = id.Name
+						}
+					}
+				}
+			}
+			construct := "recursive call " + cmpText(c.Fun)
+			if leak != "" {
+				r.Add("E15.per-body-context", fn.Name, construct, p.Pos(c), Violated,
+					"the context enriched with WithActiveSelfRefs for this body ("+leak+") is passed to the descent into nested bodies: self.* becomes active in blocks whose own schema does not enable it", true)
+			} else {
+				r.Add("E15.per-body-context", fn.Name, construct, p.Pos(c), OK, "nested bodies do not inherit this body's self-reference context", true)
+			}
+			return true
+		})
+	}
+	r.Counts["E15.recursions-with-selfref-context"] = n
+	r.Clauses = append(r.Clauses, "E15 a context enriched with WithActiveSelfRefs is never passed to the recursive descent into nested bodies")
+}
+
+// positionExclusiveSites: a and b each run only when the cursor lies inside the range of the
+// current element of two *different* loops over the items of one parsed body. Ranges of
+// sibling syntax items are disjoint (stated assumption), so the two sites never run for the
+// same cursor.
+func positionExclusiveSites(fn *Func, a, b ast.Node) bool {
+	info := fn.Info()
+	loopOf := func(n ast.Node) *ast.RangeStmt {
+		var out *ast.RangeStmt
+		for _, at := range fn.GuardsAt(n).Atoms() {
+			if at.E == nil || !at.Pol {
+				continue
+			}
+			c, ok := ast.Unparen(at.E).(*ast.CallExpr)
+			if !ok {
+				continue
+			}
+			if f := calleeOf(info, c); f == nil || f.Name() != "ContainsPos" {
+				continue
+			}
+			sel, ok := ast.Unparen(c.Fun).(*ast.SelectorExpr)
+			if !ok {
+				continue
+			}
+			o := baseObj(info, sel.X)
+			if o == nil {
+				continue
+			}
+			for _, asn := range fn.Assignments(o) {
+				if rs, ok := asn.(*ast.RangeStmt); ok && nodeContains(rs.Body, n) {
+					if id, ok := rs.Value.(*ast.Ident); ok && info.ObjectOf(id) == o {
+						out = rs
+					}
+				}
+			}
+		}
+		return out
+	}
+	la, lb := loopOf(a), loopOf(b)
+	return la != nil && lb != nil && la != lb && !nodeContains(la.Body, lb) && !nodeContains(lb.Body, la)
+}
